@@ -177,7 +177,9 @@ var (
 	elems  = []string{"div", "a", "span", "form"}
 	attrs  = []string{"title", "class", "style", "href", "onclick", "", "data-x", "action", "hx-on:click"}
 	texts  = []string{"hello", "bye", ""}
-	places = []string{"text", "attr2", "script", "none", "root", "comment"}
+	// textcall and gocall hold the same expression text, once rendered and once as a raw Go statement: an edit
+	// between them changes neither the literals nor any expression string, only how the expression is used
+	places = []string{"text", "attr2", "script", "none", "root", "textcall", "gocall", "comment"}
 )
 
 func (p params) src() string {
@@ -198,6 +200,10 @@ func (p params) src() string {
 	switch places[p.place] {
 	case "text":
 		kids = append(kids, "{ y }")
+	case "textcall":
+		kids = append(kids, "{ rt.Same(y) }")
+	case "gocall":
+		kids = append(kids, "{{ rt.Same(y) }}")
 	case "script":
 		kids = append(kids, "<script>var v = {{ y }};</script>")
 	case "comment":
@@ -241,7 +247,7 @@ type candidate struct {
 }
 
 func edits(full bool) (states, transitions int, cands []candidate) {
-	doms := []int{2, 6, 2, 5, 2, 1}
+	doms := []int{2, 6, 2, 7, 2, 1}
 	if full {
 		doms = []int{len(elems), len(attrs), len(texts), len(places), 2, 2}
 	}
@@ -319,7 +325,8 @@ func edits(full bool) (states, transitions int, cands []candidate) {
 	}
 	// 2. the decision depends on the previous version only (this is what lets the search below run to
 	// closure): validated on every two-edit history from a slice of the initial templates
-	indepChecked := 0
+	indepChecked, historyDependent := 0, 0
+	seenCand := map[[2]params]bool{}
 	for i, p0 := range all {
 		if (!full && i%8 != 0) || (full && i%48 != 0) {
 			continue
@@ -327,13 +334,27 @@ func edits(full bool) (states, transitions int, cands []candidate) {
 		for _, p1 := range neighbours(p0) {
 			for _, p2 := range neighbours(p1) {
 				indepChecked++
-				if decide([]params{p0, p1}, p2) != dec[[2]params{p1, p2}] {
-					vlib.Fatal("the handler's decision for %s → %s depends on older history (%s)", p1, p2, p0)
+				if d2 := decide([]params{p0, p1}, p2); d2 != dec[[2]params{p1, p2}] {
+					// the decision depends on more than the previous version: the closure below is then not the whole
+					// story, so this concrete history is followed by hand and its lagging state, if any, is executed
+					historyDependent++
+					if historyDependent == 1 {
+						run.Capped(fmt.Sprintf("the handler's decision for %s → %s depends on older history (%s): histories longer than two edits are covered by the pairwise closure only approximately", p1, p2, p0))
+					}
+					compiled := p0
+					if dec[[2]params{p0, p1}] {
+						compiled = p1
+					}
+					if !d2 && compiled != p2 && !seenCand[[2]params{compiled, p2}] {
+						seenCand[[2]params{compiled, p2}] = true
+						cands = append(cands, candidate{compiled, p2, p0.String() + " → " + p1.String() + " → " + p2.String()})
+					}
 				}
 			}
 		}
 	}
 	run.Cov["history_independence_checks"] = indepChecked
+	run.Cov["history_dependent_decisions"] = historyDependent
 	// 3. breadth-first closure over (last compiled, current) — edit sequences of any length
 	type state struct{ compiled, cur params }
 	type node struct {
@@ -346,7 +367,6 @@ func edits(full bool) (states, transitions int, cands []candidate) {
 		seen[state{p, p}] = true
 		frontier = append(frontier, node{state{p, p}, p.String()})
 	}
-	seenCand := map[[2]params]bool{}
 	maxDepth := 0
 	shapeDiffers := 0
 	for d := 1; len(frontier) > 0; d++ {
